@@ -80,9 +80,10 @@ Theorem C09_set_monitor_delegated_refuted :
 Proof. exact m09d_refuted. Qed.
 Print Assumptions C09_set_monitor_delegated_refuted.
 
-(** Partial (excluded: stored ObjectSets without a revision that nevertheless record remote phases - a state no run of
-    the controller produces, since remote phases are recorded by the phase loop, which runs only once the revision is
-    set): otherwise the monitor accepts every pass of the model. *)
+(** Partial (excluded: active ObjectSets without a revision that nevertheless record, in status.remotePhases, the phase
+    object of one of their delegated phases - a state no run of the controller produces, since remote phases are
+    recorded by the phase loop, which runs only once the revision is set): otherwise the monitor accepts every pass of
+    the model. *)
 Theorem C09_set_monitor_delegated_sound_partial :
   forall c : scase, rev_before_remotes c = true -> m09d (set_obs_s c (SetCorr.model_run c)) = true.
 Proof. exact m09d_sound_partial. Qed.
